@@ -268,7 +268,12 @@ func compileDel(cp *compiler, fn *parse.Form) effectOp {
 type delLocalVarOp struct{ index int }
 
 func (op delLocalVarOp) exec(fm *Frame) Exception {
+	// The local namespace may share its slots with the Evaler's global
+	// namespace, which concurrent evaluations copy while holding the Evaler's
+	// mutex (Evaler.Eval, Evaler.DeleteFromGlobal).
+	fm.Evaler.mu.Lock()
 	fm.local.slots[op.index] = nil
+	fm.Evaler.mu.Unlock()
 	return nil
 }
 
